@@ -38,6 +38,12 @@ def lattice(prog, tier: str) -> list[dict]:
                 for flt in [None] + lts:
                     for fs in sizes:
                         pts.append(dict(cls=cls, delimited=delim, lt=0, fs=fs, flow=fc, flow_lt=flt))
+    # namespace declarations share the flow with the statements: inferred flows, small frames
+    for cls in STREAMS:
+        for delim in (True, False):
+            for lt in lts:
+                for fs in (1, 3):
+                    pts.append(dict(cls=cls, delimited=delim, lt=lt, fs=fs, flow="inferred", flow_lt=None, ns=True))
     return pts
 
 
@@ -89,14 +95,29 @@ def _rdflib_statements(k: K.Kit, quads: bool, n: int) -> list:
     return [P.rdflib_statement(k, st) for st in _specs(quads, n)]
 
 
-def _rdflib_store(k: K.Kit, quads: bool, n: int) -> ExtObj:
+def _rdflib_store(k: K.Kit, quads: bool, n: int, namespaces: list | None = None) -> ExtObj:
     from .. import pipe as P
 
-    return P.rdflib_store_for(k, 2 if quads else 1, _specs(quads, n))
+    return P.rdflib_store_for(k, 2 if quads else 1, _specs(quads, n), namespaces)
+
+
+NS_BINDINGS = [("n1", ("nsone", "#")), ("n2", ("nstwo", "/")), ("", ("nsthree", "/"))]
+
+
+def _bindings(k: K.Kit, pt: dict, integ: str) -> list | None:
+    if not pt.get("ns"):
+        return None
+    from ..values import Atom, sstr
+
+    out = []
+    for prefix, (tag, sep) in NS_BINDINGS:
+        iri = sstr(Atom(tag + ".scheme", nosep=True), "/", Atom(tag + ".path", nosep=True), sep)
+        out.append((prefix, k.new(K.GK, "IRI", iri) if integ == "generic" else iri))
+    return out
 
 
 def _mk_options(k: K.Kit, pt: dict) -> Any:
-    params = k.params(delimited=pt["delimited"])
+    params = k.params(delimited=pt["delimited"], namespace_declarations=True) if pt.get("ns") else k.params(delimited=pt["delimited"])
     kw: dict[str, Any] = dict(params=params, frame_size=pt["fs"], logical_type=pt["lt"], lookup_preset=k.preset())
     if pt["flow"] != "inferred":
         fkw: dict[str, Any] = {}
@@ -146,12 +167,13 @@ def run_point(prog, entry: tuple, pt: dict, n_stmts: int = 2) -> dict:
                 else:
                     stream = k.method(k.get(K.ST, pt["cls"]), "for_rdflib", opts)
             stage = "run"
+            nsb = _bindings(k, pt, integ)
             frames: list = []
             out = None
             if integ == "generic":
                 stmts = _generic_statements(k, quads, n_stmts)
                 if kind == "sink":
-                    frames = it.drain(k.call(k.get(K.GS, "stream_frames"), stream, k.g_sink(stmts)))
+                    frames = it.drain(k.call(k.get(K.GS, "stream_frames"), stream, k.g_sink(stmts, nsb)))
                 elif kind == "generator":
                     frames = it.drain(k.call(k.get(K.GS, "stream_frames"), stream, k.generator(stmts)))
                 elif kind == "flat_frames":
@@ -160,25 +182,25 @@ def run_point(prog, entry: tuple, pt: dict, n_stmts: int = 2) -> dict:
                     out = k.output()
                     k.call(k.get(K.GS, "flat_stream_to_file"), k.generator(stmts), out, opts)
                 elif kind == "grouped_frames":
-                    frames = it.drain(k.call(k.get(K.GS, "grouped_stream_to_frames"), k.generator([k.g_sink(stmts[:1]), k.g_sink(stmts[1:])] if len(stmts) > 1 else [k.g_sink(stmts)]), opts))
+                    frames = it.drain(k.call(k.get(K.GS, "grouped_stream_to_frames"), k.generator([k.g_sink(stmts[:1], nsb), k.g_sink(stmts[1:], nsb)] if len(stmts) > 1 else [k.g_sink(stmts, nsb)]), opts))
                 elif kind == "grouped_file":
                     out = k.output()
-                    k.call(k.get(K.GS, "grouped_stream_to_file"), k.generator([k.g_sink(stmts[:1]), k.g_sink(stmts[1:])] if len(stmts) > 1 else [k.g_sink(stmts)]), out, options=opts)
+                    k.call(k.get(K.GS, "grouped_stream_to_file"), k.generator([k.g_sink(stmts[:1], nsb), k.g_sink(stmts[1:], nsb)] if len(stmts) > 1 else [k.g_sink(stmts, nsb)]), out, options=opts)
                 elif kind == "sink_serialize":
                     out = k.output()
-                    k.method(k.g_sink(stmts), "serialize", out)
+                    k.method(k.g_sink(stmts, nsb), "serialize", out)
             else:
                 if kind == "store":
-                    frames = it.drain(k.call(k.get(K.RS, "stream_frames"), stream, _rdflib_store(k, quads, n_stmts)))
+                    frames = it.drain(k.call(k.get(K.RS, "stream_frames"), stream, _rdflib_store(k, quads, n_stmts, nsb)))
                 elif kind == "generator":
                     frames = it.drain(k.call(k.get(K.RS, "stream_frames"), stream, k.generator(_rdflib_statements(k, quads, n_stmts))))
                 elif kind == "plugin":
                     out = k.output()
-                    ser = k.new(K.RS, "RDFLibJellySerializer", _rdflib_store(k, quads, n_stmts))
+                    ser = k.new(K.RS, "RDFLibJellySerializer", _rdflib_store(k, quads, n_stmts, nsb))
                     k.method(ser, "serialize", out, stream=stream, options=opts)
                 elif kind == "plugin_options":
                     out = k.output()
-                    ser = k.new(K.RS, "RDFLibJellySerializer", _rdflib_store(k, quads, n_stmts))
+                    ser = k.new(K.RS, "RDFLibJellySerializer", _rdflib_store(k, quads, n_stmts, nsb))
                     k.method(ser, "serialize", out, options=opts)
                 elif kind == "flat_frames":
                     frames = it.drain(k.call(k.get(K.RS, "flat_stream_to_frames"), k.generator(_rdflib_statements(k, quads, n_stmts)), opts))
@@ -186,10 +208,10 @@ def run_point(prog, entry: tuple, pt: dict, n_stmts: int = 2) -> dict:
                     out = k.output()
                     k.call(k.get(K.RS, "flat_stream_to_file"), k.generator(_rdflib_statements(k, quads, n_stmts)), out, opts)
                 elif kind == "grouped_frames":
-                    frames = it.drain(k.call(k.get(K.RS, "grouped_stream_to_frames"), k.generator([_rdflib_store(k, quads, n_stmts)]), opts))
+                    frames = it.drain(k.call(k.get(K.RS, "grouped_stream_to_frames"), k.generator([_rdflib_store(k, quads, n_stmts, nsb)]), opts))
                 elif kind == "grouped_file":
                     out = k.output()
-                    k.call(k.get(K.RS, "grouped_stream_to_file"), k.generator([_rdflib_store(k, quads, n_stmts)]), out, options=opts)
+                    k.call(k.get(K.RS, "grouped_stream_to_file"), k.generator([_rdflib_store(k, quads, n_stmts, nsb)]), out, options=opts)
             if out is not None:
                 frames = [f for _m, f in k.written_frames(out)]
         except PyRaise as pr:
@@ -292,6 +314,8 @@ def guessed_lattice(prog) -> list[dict]:
             for lt in lts:
                 for fs in FRAME_SIZES:
                     pts.append(dict(quads=quads, delimited=delim, lt=lt, fs=fs, flow="inferred", flow_lt=None))
+                for fs in (1, 3):
+                    pts.append(dict(quads=quads, delimited=delim, lt=lt, fs=fs, flow="inferred", flow_lt=None, ns=True))
     return pts
 
 
@@ -309,12 +333,16 @@ def check(chk: Check) -> None:
     n_shapes = (2,) if chk.tier == "quick" else (1, 2)
     for pt in lattice(prog, chk.tier):
         for entry in DIRECT:
+            if pt.get("ns") and entry[2] == "generator":
+                continue  # a statement generator has no bindings
             for n in n_shapes:
                 jobs.append((entry, pt, n))
     for pt in guessed_lattice(prog):
         for entry in GUESSED:
             if entry[2] == "sink_serialize" and not (pt["delimited"] and pt["lt"] == 0 and pt["fs"] == 250):
                 continue  # takes no options
+            if pt.get("ns") and entry[2] in ("flat_frames", "flat_file"):
+                continue  # a statement generator has no bindings
             for n in n_shapes:
                 jobs.append((entry, pt, n))
     workers = min(16, os.cpu_count() or 1)
@@ -359,6 +387,7 @@ def check(chk: Check) -> None:
             chk.ok("C06.PATH.drained", inst, r, nontrivial=True)
     chk.note(f"verdict tally: {tally}")
     chk.part("writer-table", lambda: _writer_table(chk))
+    chk.part("malformed", lambda: _malformed(chk))
 
 
 def _writer_table(chk: Check, rule: str = "C06.TABLE.writer") -> None:
@@ -394,3 +423,59 @@ def _writer_table(chk: Check, rule: str = "C06.TABLE.writer") -> None:
                         chk.fail(rule, inst, "pyjelly.integrations.rdflib.serialize.RDFLibJellySerializer.serialize:writer-choice", f"non-delimited output consists of {len(modes)} frames written back to back (a reader sees one merged frame)")
                     else:
                         chk.ok(rule, inst, {"delimited": delim, "writes": modes})
+
+
+def _malformed(chk: Check) -> None:
+    """C06.PATH.refuse-malformed: a 3-term statement among the quads of a QUADS/GRAPHS stream cannot be honoured."""
+    from .. import pipe as P
+
+    prog = chk.program
+    rule = "C06.PATH.refuse-malformed"
+    chk.rule(rule, "a QUADS/GRAPHS serialisation that meets a statement with only three terms raises; it never returns normally with fewer statements written than submitted", floor=16)
+    kinds = [("generic", kd) for kd in ("sink", "generator", "flat_file", "flat_frames", "grouped_file", "sink_serialize")] + [("rdflib", kd) for kd in ("generator", "flat_file", "flat_frames")]
+    for integ, kind in kinds:
+        for cls in ("QuadStream", "GraphStream"):
+            for pos in (0, 1, 2):
+                if pos == 0 and kind not in ("sink", "generator"):
+                    continue  # the guessed entry points pick the stream class from the first statement
+
+                def scenario(it: Interp) -> Any:
+                    k = K.Kit(it)
+                    specs = _specs(True, 3)
+                    mk = P.generic_statement if integ == "generic" else P.rdflib_statement
+                    stmts = [mk(k, sp if i != pos else sp[:3]) for i, sp in enumerate(specs)]
+                    opts = _mk_options(k, dict(delimited=True, fs=250, lt=0, flow="inferred", flow_lt=None))
+                    mod = K.GS if integ == "generic" else K.RS
+                    out = None
+                    frames: list = []
+                    if kind in ("sink", "generator"):
+                        if integ == "generic":
+                            stream = k.stream(cls, k.generic_encoder(k.attr(opts, "lookup_preset")), opts)
+                        else:
+                            stream = k.method(k.get(K.ST, cls), "for_rdflib", opts)
+                        data = k.g_sink(stmts) if kind == "sink" else k.generator(stmts)
+                        frames = it.drain(k.call(k.get(mod, "stream_frames"), stream, data))
+                    elif kind == "flat_file":
+                        out = k.output()
+                        k.call(k.get(mod, "flat_stream_to_file"), k.generator(stmts), out, opts)
+                    elif kind == "flat_frames":
+                        frames = it.drain(k.call(k.get(mod, "flat_stream_to_frames"), k.generator(stmts), opts))
+                    elif kind == "grouped_file":
+                        out = k.output()
+                        k.call(k.get(mod, "grouped_stream_to_file"), k.generator([k.g_sink(stmts)]), out, options=opts)
+                    else:
+                        out = k.output()
+                        k.method(k.g_sink(stmts), "serialize", out)
+                    if out is not None:
+                        frames = [f for _m, f in k.written_frames(out)]
+                    return _count_statement_rows(frames), _impl_function(it)
+
+                inst = f"{integ} {kind} {cls} three-term statement at position {pos}"
+                for it, o in explore(prog, scenario, max_paths=8, generic_strings=True):
+                    chk.paths += 1
+                    if o[0] != "ok":
+                        chk.ok(rule, inst, {"refused": it.exc_class_name(o[1].exc)})
+                    elif o[1][0] >= 3:
+                        chk.ok(rule, inst, {"written": o[1][0]})
+                    else:
+                        chk.fail(rule, inst, (o[1][1] or f"pyjelly.integrations.{integ}.serialize") + ":malformed-statement", f"returns normally with {o[1][0]} of 3 statements written: the statement with three terms silently ends the output instead of raising")
